@@ -85,6 +85,12 @@ def serialize(cell: A5Cell) -> int:
     if resolution == -1:
         return WORLD_CELL
 
+    if S < 0:
+        raise ValueError(f"S ({S}) must not be negative")
+
+    if resolution < FIRST_HILBERT_RESOLUTION and S != 0:
+        raise ValueError(f"S ({S}) must be 0 below resolution {FIRST_HILBERT_RESOLUTION}")
+
     # Position of resolution marker as bit shift from LSB
     if resolution < FIRST_HILBERT_RESOLUTION:
         # For non-Hilbert resolutions, resolution marker moves by 1 bit per resolution
